@@ -86,7 +86,7 @@ func describeInput(kind string, n int, fill string) string { return fmt.Sprintf(
 func init() { oracleTable["C14"] = oracleC14 }
 
 func oracleC14(rep *report, r *rng) {
-	rep.Rule = "four services x (all strings of <=1 byte, sampled/all 2-byte strings, lengths 3..64KiB random / 0xFF / high-bit, 8.5MiB and 32MiB in thorough); checks: result equals independent reference, buffer untouched, repeatable, unread-part only; distinct = distinct (alg,input) pairs"
+	rep.Rule = "four services x (all strings of <=1 byte, sampled/all 2-byte strings, lengths 3..64KiB random / 0xFF / high-bit, periodic inputs > 1 KiB (all 0x00/0xFF arrangements of periods 2,4,8; random periods), buffers with five histories, 8.5MiB and 32MiB in thorough); checks: result equals independent reference, buffer untouched, repeatable, unread-part only; distinct = distinct (alg,input) pairs"
 	check := func(name string, data []byte, desc string) {
 		if rep.failed() {
 			return
@@ -187,6 +187,37 @@ func oracleC14(rep *report, r *rng) {
 				lo[i] &= 0x7f
 			}
 			check(a, lo, describeInput("random-ascii", n, "rand&7f"))
+		}
+		// periodic inputs: every all-ones/zero arrangement of a period of up to 8 bytes, and random 2/4/8/16-byte periods,
+		// longer than 1 KiB (what word-at-a-time summing with packed lanes gets wrong needs uneven lanes and length)
+		for _, period := range []int{2, 4, 8} {
+			for mask := 0; mask < 1<<uint(period); mask++ {
+				pat := make([]byte, period)
+				for i := range pat {
+					if mask>>uint(i)&1 == 1 {
+						pat[i] = 0xff
+					}
+				}
+				for _, n := range []int{1040, 4099} {
+					check(a, bytes.Repeat(pat, n/period+1)[:n], fmt.Sprintf("periodic-%d-mask-%x-len-%d", period, mask, n))
+				}
+			}
+		}
+		for k := 0; k < 40; k++ {
+			period := []int{2, 4, 8, 16}[r.intn(4)]
+			pat := make([]byte, period)
+			for i := range pat {
+				switch r.intn(3) {
+				case 0:
+					pat[i] = byte(0x80 + r.intn(0x80))
+				case 1:
+					pat[i] = byte(r.intn(0x20))
+				default:
+					pat[i] = byte(r.intn(256))
+				}
+			}
+			n := 1032 + r.intn(8000)
+			check(a, bytes.Repeat(pat, n/period+1)[:n], fmt.Sprintf("periodic-%d-%x-len-%d", period, pat, n))
 		}
 		big := []int{1 << 20}
 		if rep.thorough {
